@@ -89,6 +89,7 @@ def cvc5_inproc(assertions, timeout_ms, values=None):
         smt = to_smt2(assertions)
         slv = cvc5.Solver()
         slv.setOption("strings-exp", "true")
+        slv.setOption("arrays-exp", "true")      # constant arrays (empty sets) appear in most path conditions
         slv.setOption("produce-models", "true")
         slv.setOption("tlimit-per", str(int(timeout_ms)))
         parser = cvc5.InputParser(slv)
@@ -164,16 +165,37 @@ def _parse_get_value(txt):
 
 
 _STREAK = {"z3_unknown": 0}
+_STRCACHE = {}
+
+
+def _has_strings(assertions) -> bool:
+    """does any assertion mention the string / regex theory? (cached per AST id)"""
+    for a in assertions:
+        try:
+            k = a.get_id()
+        except Exception:
+            continue
+        r = _STRCACHE.get(k)
+        if r is None:
+            t = a.sexpr()
+            r = ("str." in t) or ("String" in t) or ("re." in t) or ("seq." in t)
+            _STRCACHE[k] = r
+        if r:
+            return True
+    return False
 
 
 def quick_sat(assertions, timeout_ms):
     """feasibility: z3 with a short budget, then cvc5 in-process (cvc5 first once z3 keeps giving up: string-heavy
     units). -> 'sat' | 'unsat' | 'unknown'"""
-    if _STREAK["z3_unknown"] >= 3:
-        v2, _ = cvc5_inproc(assertions, timeout_ms)
+    if _STREAK["z3_unknown"] >= 3 or _has_strings(assertions):
+        # string-heavy path conditions: z3's short budget is usually wasted on them, cvc5 answers in milliseconds
+        # feasibility only prunes: 'unknown' means "explore the branch".  cvc5 refutes infeasible string branches in ~0.1 s or not
+        # at all, so a sub-second budget loses nothing but waiting
+        v2, _ = cvc5_inproc(assertions, min(timeout_ms, 700))
         if v2 != "unknown":
             return v2
-        v, _m, _w, _dt, _s = z3_check(assertions, min(timeout_ms, 400), want_model=False)
+        v, _m, _w, _dt, _s = z3_check(assertions, min(timeout_ms, 300), want_model=False)
         if v != "unknown":
             _STREAK["z3_unknown"] = 0
         return v
@@ -188,8 +210,9 @@ def quick_sat(assertions, timeout_ms):
 
 def decide(assertions, timeout_ms, cvc5_timeout_ms=None, values=None):
     """-> (verdict, model, backend, seconds, note); model is a z3 ModelRef or (from cvc5) a dict name -> value"""
-    # staged: short z3, then cvc5 in-process (strings), then full z3, then cvc5 subprocess
-    v, m, why, dt, _ = z3_check(assertions, min(2000, timeout_ms))
+    # staged: short z3, then cvc5 in-process (strings), then full z3, then cvc5 subprocess; for string-heavy formulas the short
+    # z3 stage is skipped down to 300 ms (it almost never answers there, cvc5 usually does)
+    v, m, why, dt, _ = z3_check(assertions, min(300 if _has_strings(assertions) else 2000, timeout_ms))
     if v != "unknown":
         return v, m, "z3", dt, ""
     vq, dtq, cmq = cvc5_inproc(assertions, min(5000, timeout_ms), values=values or {})
